@@ -15,7 +15,9 @@ from . import common
 NAMES = ["p", "q", "r"]
 VERS = ["1", "2", "3"]
 FLAVS = ["Linux", "generic"]
-TAGS = ["current", "stable", "beta"]
+TAGS = ["current", "stable", "beta", "rc-1", "w.2024.10"]   # global tags; the last two hold non-word characters (chain files found by listing)
+GEN_TAGS = ["current", "stable", "rc-1", "w.2024.10", "beta"]
+EXTRA_TAGS = ("beta", "rc-1", "w.2024.10", "beta+1")    # registered beside eups' own (current, stable, ...)
 NSTACKS = 2
 STACK_NAMES = ("stack", "stack2")      # stack 0 is a character prefix of stack 1
 # table files kept outside the installation directories (what `declare -m <path>` can name): [stack index, path], content id.
@@ -50,7 +52,7 @@ class World:
     def __init__(self, missing=(), users=USERS):
         self.root = common.scratch("db")
         # directory names that are character prefixes of one another (DESIGN 4.1): stack, stack2, stack2x (outside)
-        self.stacks, self.uds = common.mkstacks(self.root, NSTACKS, extra_tags=("beta",), users=tuple(users),
+        self.stacks, self.uds = common.mkstacks(self.root, NSTACKS, extra_tags=EXTRA_TAGS, users=tuple(users),
                                                 names=STACK_NAMES)
         self.missing = [list(m) for m in missing]
         for si, rel in all_dirs():
@@ -296,7 +298,7 @@ def _install_audit(events):
                 p, _, flags = args
                 if isinstance(flags, int) and flags & WRITE_FLAGS and isinstance(p, (str, bytes)):
                     events.append(norm(p))
-            elif ev in ("os.remove", "os.mkdir", "os.rmdir", "os.utime", "os.truncate"):
+            elif ev in ("os.remove", "os.mkdir", "os.rmdir", "os.utime", "os.truncate", "os.chmod", "os.chown"):
                 events.append(norm(args[0]))
             elif ev in ("os.rename", "os.link", "os.symlink"):
                 events.append(norm(args[0]))
@@ -307,6 +309,112 @@ def _install_audit(events):
 
 
 EVENT_FILE = ".events-of-crashed-child"
+
+
+def _install_calltrace(world, calls):
+    """Record, in order, every top-level call of a `Database` mutator (declare / undeclare / assignTag / unassignTag of
+    `eups.db.Database._Database`), of `shutil.rmtree` and of `eups.utils.copyfile` that RETURNS (a call that raises has
+    changed nothing the model counts), in the vocabulary of the model's effects (`Db.Eff`).  Behavioural, not textual:
+    where in `Eups.py` the call is written does not matter.  Module attribute replacement only, in the forked child."""
+    import importlib
+    import shutil
+    D = importlib.import_module("eups.db.Database")
+    U = importlib.import_module("eups.utils")
+    depth = {"n": 0}
+
+    def stack_of(db):
+        root = os.path.dirname(os.path.abspath(db.dbpath))
+        return world.stacks.index(root) if root in world.stacks else root
+
+    def describe(name, self, a, kw):
+        if name in ("declare", "undeclare"):
+            prod = a[0] if a else kw.get("product")
+            row = [name, stack_of(self), prod.name, prod.version, prod.flavor]
+            if name == "declare":
+                tags = [str(getattr(t, "name", t)) for t in (prod.tags or [])]
+                row.append(tags[0] if len(tags) == 1 else (tags or None))
+            return row
+        if name == "assignTag":
+            tag, pname, version = (list(a) + [None] * 3)[:3]
+            fl = a[3] if len(a) > 3 else kw.get("flavors")
+            return ["assign", stack_of(self), str(tag), pname, fl if isinstance(fl, str) or fl is None else list(fl), version]
+        tag, pname = (list(a) + [None] * 2)[:2]
+        fl = a[2] if len(a) > 2 else kw.get("flavors")
+        return ["unassign", stack_of(self), str(tag), pname, fl if isinstance(fl, str) or fl is None else list(fl)]
+
+    def wrap(name, fn):
+        def w(self, *a, **kw):
+            top = depth["n"] == 0
+            row = describe(name, self, a, kw) if top else None
+            depth["n"] += 1
+            try:
+                ret = fn(self, *a, **kw)
+            finally:
+                depth["n"] -= 1
+            if top:
+                calls.append(row)
+            return ret
+        return w
+    for m in ("declare", "undeclare", "assignTag", "unassignTag"):
+        setattr(D._Database, m, wrap(m, getattr(D._Database, m)))
+
+    real_rmtree = shutil.rmtree
+
+    def rmtree(path, *a, **kw):
+        ret = real_rmtree(path, *a, **kw)
+        try:
+            calls.append(["rmTree", world.canon_path(os.path.abspath(os.fsdecode(path)))])
+        except Exception:
+            pass
+        return ret
+    shutil.rmtree = rmtree
+    real_copyfile = U.copyfile
+
+    def copyfile(src, dst, *a, **kw):
+        ret = real_copyfile(src, dst, *a, **kw)
+        try:
+            with open(dst) as fh:
+                cid = content_id(fh.read())
+            c = world.canon_path(os.path.abspath(dst))
+            parts = c[1].split("/") if isinstance(c, list) else []
+            if len(parts) >= 5 and parts[0] == "ups_db":
+                calls.append(["copyExtra", c[0], parts[1], parts[2], parts[3], "/".join(parts[4:]), cid])
+            else:
+                calls.append(["copyfile", c])
+        except Exception:
+            calls.append(["copyfile", str(dst)])
+        return ret
+    U.copyfile = copyfile
+
+
+def model_calls(trace):
+    """the model's effects of one command in the vocabulary of `_install_calltrace`"""
+    out = []
+    for e in trace or []:
+        if e[0] == "declare":
+            d = e[1]
+            out.append(["declare", d[0], d[1], d[2], d[3], e[2]])
+        else:
+            out.append(list(e))
+    return out
+
+
+def writes_under_stacks(world_stacks, events, ignore_locks=False):
+    """the audit events (open for writing, create, remove, rename, mkdir, rmdir, utime, truncate, chmod, link) on paths
+    under a stack, cache files excluded — what a dry run must not have any of"""
+    out = []
+    for p in events or []:
+        for si, st in enumerate(world_stacks):
+            if p.startswith(st + "/") or p == st:
+                rel = p[len(st) + 1:]
+                base = os.path.basename(p)
+                if CACHE_RE.search(base) or ".pickleDB" in base:
+                    break
+                if ignore_locks and (rel == ".lockDir" or rel.startswith(".lockDir/")):
+                    break           # the command line brackets the command with lock files (C09), gone when it returns
+                out.append("%d:%s" % (si, rel))
+                break
+    return out
 
 
 MSG_RES = [(re.compile(r'^Declaring directory (.*) as (\S+) (\S+)(?: (\S+))? in (.*)$'), "declaring"),
@@ -345,6 +453,162 @@ def parse_would(world, text):
     return out
 
 
+def apply_op(world, e, cmd):
+    """one API call of the generator's vocabulary on the Eups instance `e`"""
+    op = cmd["op"]
+    st = (lambda i: None if i is None else world.stacks[i])
+    if op == "declare":
+        kw = {}
+        t = cmd.get("table")
+        if t == "none":
+            kw["tablefile"] = "none"
+        elif t and t[0] == "path":                      # declare -m <path>
+            kw["tablefile"] = world.path_of(t[1])
+        elif t and t[0] == "stream":                    # declare -M: the table comes as a stream
+            import io
+            kw["tablefile"] = io.StringIO(table_text(t[1]))
+        if cmd.get("ext"):
+            kw["externalFileList"] = [(os.path.join(world.src, "c%d" % cid), path) for path, cid in cmd["ext"]]
+        return e.declare(cmd["name"], cmd["version"], world.path_of(cmd.get("dir")), st(cmd.get("stack")),
+                         tag=cmd.get("tag"), **kw)
+    if op == "undeclare":
+        return e.undeclare(cmd["name"], cmd.get("version"), st(cmd.get("stack")), tag=cmd.get("tag"),
+                           undeclareVersionAndTag=bool(cmd.get("vat")))
+    if op == "assignTag":
+        return e.assignTag(cmd["tag"], cmd["name"], cmd["version"], st(cmd.get("stack")))
+    if op == "unassignTag":
+        return e.unassignTag(cmd["tag"], cmd["name"], cmd.get("version"), st(cmd.get("stack")))
+    if op == "remove":
+        return e.remove(cmd["name"], cmd["version"], recursive=bool(cmd.get("recursive")))
+    if op == "query":
+        return None
+    raise ValueError("unknown op %r" % (op,))
+
+
+def _child_live2(world, cmd):
+    """Two Eups instances of one user alive in ONE process (what `eups distrib` and scripts using the API do): both are
+    constructed first, then the sub-commands `cmd["seq"] = [[instance, command], ...]` run in that order, each on its
+    instance — whose in-memory stacks are as old as its construction or its last write-through.  Exercises
+    `ProductStack.ensureInSync / cacheIsInSync / _cacheFileIsInSync`, the CacheOutOfSync branch of `save` and `reload`."""
+    _quiet_fds()
+    os.environ["EUPS_PATH"] = ":".join(world.stacks)
+    os.environ["EUPS_USERDATA"] = world.uds[cmd.get("user", "A")]
+    import tempfile
+    tempfile.tempdir = world.tmp
+    events, calls = [], []
+    _install_audit(events)
+    _install_calltrace(world, calls)
+    fl = cmd.get("flavor", "Linux")
+    insts = [common.new_eups(flavor=fl), common.new_eups(flavor=fl)]
+    loaded = [[sorted(e.versions[s].getFlavors()) for s in world.stacks] for e in insts]
+    outs = []
+    import time
+    for i, c in cmd["seq"]:
+        time.sleep(0.004)       # consecutive sub-commands in distinct timestamp ticks (the staleness test compares mtimes)
+        n0 = len(calls)
+        try:
+            apply_op(world, insts[i], c)
+            o = "ok"
+        except Exception as ex:  # noqa
+            t = type(ex).__name__
+            o = {"ProductNotFound": "NotFound", "EupsException": "Refused"}.get(t, "Other:" + t)
+        outs.append([o, calls[n0:]])
+    views = [view_of(world, e) for e in insts]
+    return {"events": [x for x in events if x], "outs": outs, "loaded": loaded, "views": views}
+
+
+def _child_race(world, cmd):
+    """Two UNSERIALISED writers sharing one cache directory (same user, no locks: the API takes none).  Writer A is this
+    child; writer B's whole command runs in a sub-child at a gate inside A's `ProductStack.reload`:
+      gate = ["at_open", k]     when A opens its k-th cache file for reading (after it has noted the file's time),
+      gate = ["after_load", k]  right after A's k-th `pickle.load` returns (before whatever bookkeeping follows);
+    when A never gets there (it rebuilt its stacks), B runs between A's constructor and A's command.  Then A runs its
+    own command.  Module attribute replacement in the ProductStack module (`pickle`, `open`) only."""
+    _quiet_fds()
+    os.environ["EUPS_PATH"] = ":".join(world.stacks)
+    os.environ["EUPS_USERDATA"] = world.uds[cmd.get("user", "A")]
+    import tempfile
+    import importlib
+    import builtins
+    import pickle as real_pickle
+    tempfile.tempdir = world.tmp
+    events, calls = [], []
+    _install_audit(events)
+    _install_calltrace(world, calls)
+    PS = importlib.import_module("eups.stack.ProductStack")
+    kind, k = cmd["gate"]
+    st = {"n_open": 0, "n_load": 0, "fired": None, "b": None}
+
+    def run_b(where):
+        st["fired"] = where
+        r = common.in_child(_child_command, world, dict(cmd["b"], user=cmd.get("user", "A")))
+        st["b"] = outcome_of(r)
+        info = st["b"][1]
+        if isinstance(info, dict):
+            events.extend(info.get("events") or [])
+
+    class PickleProxy:
+        def __getattr__(self, name):
+            return getattr(real_pickle, name)
+
+        @staticmethod
+        def load(fd, *a, **kw):
+            obj = real_pickle.load(fd, *a, **kw)
+            if st["fired"] is None and kind == "after_load" and st["n_load"] == k:
+                run_b("after_load#%d" % k)
+            st["n_load"] += 1
+            return obj
+
+    def gated_open(file, mode="r", *a, **kw):
+        if st["fired"] is None and kind == "at_open" and "b" in mode and "r" in mode and CACHE_RE.search(str(file)):
+            if st["n_open"] == k:
+                run_b("at_open#%d" % k)
+            st["n_open"] += 1
+        return builtins.open(file, mode, *a, **kw)
+    PS.pickle = PickleProxy()
+    PS.open = gated_open
+    if kind == "at_save":
+        # the k-th top-level ProductStack.save of writer A (k = 0: the save() that ends a rebuilding constructor):
+        # writer B's command lands between A's scan of the database and A's save
+        real_save = PS.ProductStack.save
+        depth = {"n": 0, "seen": 0}
+
+        def gated_save(self, *a, **kw):
+            if depth["n"] == 0:
+                if st["fired"] is None and depth["seen"] == k:
+                    run_b("at_save#%d" % k)
+                depth["seen"] += 1
+            depth["n"] += 1
+            try:
+                return real_save(self, *a, **kw)
+            finally:
+                depth["n"] -= 1
+        PS.ProductStack.save = gated_save
+    fl = cmd.get("flavor", "Linux")
+    import time
+    n0 = 0
+    try:
+        e = common.new_eups(flavor=fl)
+    except Exception as ex:  # noqa: the constructor of writer A gave up (CacheOutOfSync while it saved a rebuilt stack)
+        e, loaded, oa = None, None, "Other:%s in the constructor" % type(ex).__name__
+        if st["fired"] is None:
+            run_b("after_init")
+    if e is not None:
+        loaded = [sorted(e.versions[s].getFlavors()) for s in world.stacks]
+        if st["fired"] is None:
+            run_b("after_init")
+        time.sleep(0.004)
+        n0 = len(calls)
+        try:
+            apply_op(world, e, cmd["a"])
+            oa = "ok"
+        except Exception as ex:  # noqa
+            t = type(ex).__name__
+            oa = {"ProductNotFound": "NotFound", "EupsException": "Refused"}.get(t, "Other:" + t)
+    return {"events": [x for x in events if x], "a": [oa, calls[n0:]], "b": st["b"][0] if st["b"] else None,
+            "fired": st["fired"], "loaded": loaded}
+
+
 def _child_command(world, cmd, probe=None):
     msgfile = None
     if cmd.get("noaction"):
@@ -360,7 +624,9 @@ def _child_command(world, cmd, probe=None):
     tempfile.tempdir = world.tmp          # scratch files of the command (table given as a stream) land outside the stacks
     events = []
     _install_audit(events)
-    state0 = {}
+    calls = []
+    state0 = {"calls": calls}
+    _install_calltrace(world, calls)
     if cmd.get("setup"):
         sv, sf, ss = cmd["setup"]        # the environment of a shell in which `setup -f sf name sv` was run
         os.environ["SETUP_" + cmd["name"].upper()] = "%s %s -f %s -Z %s" % (cmd["name"], sv, sf, world.stacks[ss])
@@ -371,41 +637,13 @@ def _child_command(world, cmd, probe=None):
     loaded = [sorted(e.versions[s].getFlavors()) for s in world.stacks]
     view = view_of(world, e)
     state0.update(loaded=loaded, view=view)
-    op = cmd["op"]
-    st = (lambda i: None if i is None else world.stacks[i])
     ret, exc = None, None
     try:
-        if op == "declare":
-            kw = {}
-            t = cmd.get("table")
-            if t == "none":
-                kw["tablefile"] = "none"
-            elif t and t[0] == "path":                      # declare -m <path>
-                kw["tablefile"] = world.path_of(t[1])
-            elif t and t[0] == "stream":                    # declare -M: the table comes as a stream
-                import io
-                kw["tablefile"] = io.StringIO(table_text(t[1]))
-            if cmd.get("ext"):
-                kw["externalFileList"] = [(os.path.join(world.src, "c%d" % cid), path) for path, cid in cmd["ext"]]
-            ret = e.declare(cmd["name"], cmd["version"], world.path_of(cmd.get("dir")), st(cmd.get("stack")),
-                            tag=cmd.get("tag"), **kw)
-        elif op == "undeclare":
-            ret = e.undeclare(cmd["name"], cmd.get("version"), st(cmd.get("stack")), tag=cmd.get("tag"),
-                              undeclareVersionAndTag=bool(cmd.get("vat")))
-        elif op == "assignTag":
-            ret = e.assignTag(cmd["tag"], cmd["name"], cmd["version"], st(cmd.get("stack")))
-        elif op == "unassignTag":
-            ret = e.unassignTag(cmd["tag"], cmd["name"], cmd.get("version"), st(cmd.get("stack")))
-        elif op == "remove":
-            ret = e.remove(cmd["name"], cmd["version"], recursive=bool(cmd.get("recursive")))
-        elif op == "query":
-            ret = None
-        else:
-            raise ValueError("unknown op %r" % (op,))
+        ret = apply_op(world, e, cmd)
     except Exception as ex:  # noqa: the outcome of the command; the events so far still count
         exc = (type(ex).__name__, str(ex)[:300])
     out = {"loaded": loaded, "view": view, "ret": None if ret is None else bool(ret),
-           "events": [x for x in events if x], "exc": exc}
+           "events": [x for x in events if x], "exc": exc, "calls": calls}
     if msgfile:
         import sys
         sys.stdout.flush()
@@ -415,6 +653,84 @@ def _child_command(world, cmd, probe=None):
     if probe and exc is None:
         out["probe"] = probe(world, e)
     return out
+
+
+def cli_argv(world, cmd):
+    """the command line of a dry run: `eups declare|undeclare|remove -n ...` for a command of the generator
+    (`unassignTag` is `eups undeclare -t`); None when the command has no command-line form"""
+    op = cmd["op"]
+    common_opts = ["-n", "-f", cmd.get("flavor", "Linux")]
+    if cmd.get("force"):
+        common_opts.append("-F")
+    if cmd.get("stack") is not None:
+        common_opts += ["-z", os.path.basename(world.stacks[cmd["stack"]])]
+    if op == "declare":
+        a = ["declare", cmd["name"], cmd["version"]]
+        if cmd.get("dir") is not None:
+            a += ["-r", world.path_of(cmd["dir"])]
+        if cmd.get("tag"):
+            a += ["-t", cmd["tag"]]
+        t = cmd.get("table")
+        if t == "none":
+            a += ["-m", "none"]
+        elif t and t[0] == "path":
+            a += ["-m", world.path_of(t[1])]
+        elif t and t[0] == "stream":
+            f = os.path.join(world.tmp, "cli-stream-%d.table" % t[1])
+            with open(f, "w") as fh:
+                fh.write(table_text(t[1]))
+            a += ["-M", f]
+        for path, cid in cmd.get("ext") or []:
+            a += ["-L", "%s:%s" % (os.path.join(world.src, "c%d" % cid), path)]
+        return a + common_opts
+    if op in ("undeclare", "unassignTag"):
+        a = ["undeclare", cmd["name"]] + ([cmd["version"]] if cmd.get("version") else [])
+        if cmd.get("tag"):
+            a += ["-t", cmd["tag"]]
+        if cmd.get("vat"):
+            a += ["-U"]
+        return a + common_opts
+    if op == "remove":
+        return ["remove", cmd["name"], cmd["version"], "--noInteractive"] + (["-R"] if cmd.get("recursive") else []) + common_opts
+    return None
+
+
+def _child_cli(world, cmd):
+    """The dry run as a user types it: `eups <command> -n ...` through eups.cmd (option parsing, createEups, the
+    callbacks, eups.app).  Own EUPS_USERDATA (nobody's caches are touched); everything it prints is parsed for the
+    'would do' messages; audit hook and call tracer as for the API commands."""
+    msgfile = os.path.join(world.root, ".cli-dry-run-output")
+    fd = os.open(msgfile, os.O_WRONLY | os.O_CREAT | os.O_TRUNC, 0o600)
+    os.dup2(fd, 1)
+    os.dup2(fd, 2)
+    os.environ["EUPS_PATH"] = ":".join(world.stacks)
+    ud = os.path.join(world.root, "cli-userdata")
+    os.makedirs(ud, exist_ok=True)
+    os.environ["EUPS_USERDATA"] = ud
+    import tempfile
+    import sys
+    tempfile.tempdir = world.tmp
+    if cmd.get("setup"):
+        sv, sf, ss = cmd["setup"]
+        os.environ["SETUP_" + cmd["name"].upper()] = "%s %s -f %s -Z %s" % (cmd["name"], sv, sf, world.stacks[ss])
+    argv = cli_argv(world, cmd)
+    events, calls = [], []
+    _install_audit(events)
+    _install_calltrace(world, calls)
+    import eups.cmd
+    rc, exc = None, None
+    try:
+        rc = eups.cmd.EupsCmd(args=list(argv), toolname="eups").run()
+    except SystemExit as ex:
+        rc = ex.code
+    except Exception as ex:  # noqa
+        exc = type(ex).__name__
+    sys.stdout.flush()
+    sys.stderr.flush()
+    with open(msgfile) as fh:
+        would = parse_would(world, fh.read())
+    return {"rc": rc, "exc": exc, "calls": calls, "events": [x for x in events if x], "would": would,
+            "argv": [world.canon_path(x) if x.startswith(world.root) else x for x in argv]}
 
 
 def view_of(world, e):
@@ -540,7 +856,7 @@ def rel_of(f, n, v):
 
 
 def gen_history(rng, ncmds, users=("A",), crash=0.0, rmcache=0.0, query=0.0, noaction=0.08, direct_tag=0.12,
-                remove=0.03, ext=0.08, tables=0.06, envrm=0.015):
+                remove=0.03, ext=0.08, tables=0.06, envrm=0.015, restream=0.03):
     """A history weighted toward the order-sensitive patterns: few product names, tag - undeclare -
     redeclare, two flavors in one version file, the same product in both stacks."""
     names = rng.sample(NAMES, rng.choice([1, 1, 2, 3]))
@@ -570,10 +886,27 @@ def gen_history(rng, ncmds, users=("A",), crash=0.0, rmcache=0.0, query=0.0, noa
             cmds.append({"op": "envrmdir", "dir": rng.choice(all_dirs())})
             continue
         f = "generic" if rng.random() < pgen else "Linux"
+        if rng.random() < restream:
+            # a table given as a stream for a (product, version, flavor) that was interned before with OTHER content:
+            # after an undeclare, or with force
+            n, v, si = rng.choice(names), rng.choice(vers), rng.randrange(NSTACKS)
+            a, b = (STREAMS[0], STREAMS[1]) if rng.random() < 0.5 else (STREAMS[1], STREAMS[0])
+            base = {"user": user, "flavor": f, "name": n, "op": "declare", "version": v, "stack": None, "tag": None,
+                    "dir": [si, rel_of(f, n, v)]}
+            cmds.append(dict(base, table=["stream", a], force=True))
+            if rng.random() < 0.5:
+                cmds.append({"user": user, "flavor": f, "name": n, "op": "undeclare", "version": v, "stack": None,
+                             "tag": None, "vat": False})
+                cmds.append(dict(base, user=rng.choice(users), table=["stream", b]))
+            else:
+                cmds.append(dict(base, user=rng.choice(users), table=["stream", b], force=True))
+            if (n, v, f) not in known:
+                known.append((n, v, f))
+            continue
         if r < rmcache + query:
             cmds.append({"op": "query", "user": user, "flavor": f})
             continue
-        n, v, t = rng.choice(names), rng.choice(vers), rng.choice(TAGS)
+        n, v, t = rng.choice(names), rng.choice(vers), rng.choice(GEN_TAGS)
         si = rng.randrange(NSTACKS)
         stack = rng.randrange(NSTACKS) if rng.random() < 0.15 else None
         kind = rng.choice(["declare"] * 5 + ["declare_tag"] * 3 + ["tag_only"] * 3 + ["conflict"] * 2 +
@@ -641,7 +974,10 @@ def gen_history(rng, ncmds, users=("A",), crash=0.0, rmcache=0.0, query=0.0, noa
         if c["op"] != "assignTag" and rng.random() < noaction:
             c["noaction"] = True
         if crash and c["op"] != "query" and not c.get("noaction") and rng.random() < crash:
-            c["crash"] = rng.choice([1, 1, 1, 2, 2, 3])
+            if rng.random() < 0.4:
+                c["crash_before"] = rng.choice([1, 1, 2, 2, 3])      # killed at the entry of the j-th Database mutation
+            else:
+                c["crash"] = rng.choice([1, 1, 1, 2, 2, 3])
         cmds.append(c)
     return {"missing": missing, "cmds": cmds}
 
@@ -651,14 +987,25 @@ def _crash_interposer(cmd, world, events, state0):
     update and the cache update).  Module attribute replacement only."""
     import json
     k = cmd.get("crash")
-    if not k:
+    kb = cmd.get("crash_before")
+    if not k and not kb:
         return
     import importlib
     D = importlib.import_module("eups.db.Database")
-    state = {"depth": 0, "count": 0}
+    state = {"depth": 0, "count": 0, "entered": 0}
+
+    def die():
+        with open(os.path.join(world.root, EVENT_FILE), "w") as fh:
+            json.dump({"events": [x for x in events if x], "loaded": state0.get("loaded"),
+                       "view": state0.get("view"), "calls": state0.get("calls")}, fh)
+        os._exit(17)
 
     def wrap(fn):
         def w(self, *a, **kw):
+            if state["depth"] == 0:
+                state["entered"] += 1
+                if kb and state["entered"] == kb:      # killed at the entry of the kb-th top-level Database mutation
+                    die()
             state["depth"] += 1
             try:
                 return fn(self, *a, **kw)
@@ -669,7 +1016,7 @@ def _crash_interposer(cmd, world, events, state0):
                     if state["count"] == k:
                         with open(os.path.join(world.root, EVENT_FILE), "w") as fh:
                             json.dump({"events": [x for x in events if x], "loaded": state0.get("loaded"),
-                                       "view": state0.get("view")}, fh)
+                                       "view": state0.get("view"), "calls": state0.get("calls")}, fh)
                         os._exit(17)
         return w
     for m in ("declare", "undeclare", "assignTag", "unassignTag"):
@@ -701,6 +1048,22 @@ def run_history(case, hash_noaction=True, probe=None, world_hook=None):
                 rec["out"] = "ok"
                 if os.path.isdir(p):
                     common.rmtree(p)
+            elif cmd["op"] == "live2":
+                r = common.in_child(_child_live2, w, cmd)
+                if r[0] == "ok":
+                    events = r[1]["events"]
+                    rec["out"] = "ok"
+                    rec["live"] = {"outs": r[1]["outs"], "loaded": r[1]["loaded"], "views": r[1]["views"]}
+                else:
+                    rec["out"] = "Other:%s" % (list(r[:3]),)
+            elif cmd["op"] == "race":
+                r = common.in_child(_child_race, w, cmd)
+                if r[0] == "ok":
+                    events = r[1]["events"]
+                    rec["out"] = "ok"
+                    rec["race"] = {k: r[1][k] for k in ("a", "b", "fired", "loaded")}
+                else:
+                    rec["out"] = "Other:%s" % (list(r[:3]),)
             elif cmd["op"] == "adminbuild":
                 r = common.in_child(_child_adminbuild, w, cmd["user"], cmd.get("flavor", "Linux"))
                 ok = r[0] == "ok" and (r[1]["exc"] is None or r[1]["exc"].startswith("Group not supported"))
@@ -711,10 +1074,10 @@ def run_history(case, hash_noaction=True, probe=None, world_hook=None):
             else:
                 h0 = w.tree_hash() if (hash_noaction and cmd.get("noaction")) else None
                 c = dict(cmd)
-                if c.get("crash"):
+                if c.get("crash") or c.get("crash_before"):
                     c["interpose"] = _crash_interposer
                 out, info = run_command(w, c, probe)
-                if out == "Died" and cmd.get("crash") and os.WIFEXITED(info) and os.WEXITSTATUS(info) == 17:
+                if out == "Died" and (cmd.get("crash") or cmd.get("crash_before")) and os.WIFEXITED(info) and os.WEXITSTATUS(info) == 17:
                     out, info = "Crashed", None
                     ef = os.path.join(w.root, EVENT_FILE)
                     with open(ef) as fh:
@@ -722,6 +1085,8 @@ def run_history(case, hash_noaction=True, probe=None, world_hook=None):
                     os.remove(ef)
                     events = saved["events"]
                     rec["loaded"], rec["view"] = saved["loaded"], saved["view"]
+                    if saved.get("calls") is not None:
+                        rec["calls"] = saved["calls"]
                 rec["out"] = out
                 if isinstance(info, dict):
                     events = info.get("events")
@@ -730,6 +1095,10 @@ def run_history(case, hash_noaction=True, probe=None, world_hook=None):
                         rec["view"] = info.get("view")
                     if "would" in info:
                         rec["would"] = info["would"]
+                    if "calls" in info:
+                        rec["calls"] = info["calls"]
+                    if cmd.get("noaction"):
+                        rec["dry_writes"] = writes_under_stacks(w.stacks, events)
                     if "probe" in info:
                         rec["probe"] = info["probe"]
                     if info.get("detail") and out.startswith("Other"):
@@ -741,6 +1110,17 @@ def run_history(case, hash_noaction=True, probe=None, world_hook=None):
                     rec["hash_same"] = (h0[0] == h1[0])
                     if not rec["hash_same"]:
                         rec["hash_diff"] = sorted(set(h0[1]) ^ set(h1[1]))[:10]
+                    if cmd.get("cli") and cli_argv(w, cmd):        # the same dry run through the command line
+                        r = common.in_child(_child_cli, w, cmd)
+                        if r[0] == "ok":
+                            h2 = w.tree_hash()
+                            rec["cli"] = {"rc": r[1]["rc"], "exc": r[1]["exc"], "calls": r[1]["calls"], "would": r[1]["would"],
+                                          "argv": r[1]["argv"], "writes": writes_under_stacks(w.stacks, r[1]["events"], ignore_locks=True),
+                                          "locks": sum(1 for x in r[1]["events"] if "/.lockDir/" in x),
+                                          "hash_same": h1[0] == h2[0],
+                                          "hash_diff": sorted(set(h1[1]) ^ set(h2[1]))[:10]}
+                        else:
+                            rec["cli"] = {"died": [str(x)[:200] for x in r[:3]]}
             w.normalise(events)
             rec["db"] = read_db(w)
             parsed = w.parse_files()
@@ -764,6 +1144,8 @@ def model_request(case, pinned=False, m="c06"):
     dirs = [[si, rel, rel.split("/")[1]] for si, rel in all_dirs() if [si, rel] not in case.get("missing", [])]
     cmds = []
     for c in case["cmds"]:
+        if c["op"] in ("live2", "race"):
+            break       # two live instances / two unserialised writers are outside the model: it answers for the prefix only
         if c["op"] == "rmcache":
             cmds.append({"op": "rmcache", "user": UID[c["user"]], "stack": c["stack"], "flavor": c["flavor"]})
             continue
@@ -781,6 +1163,8 @@ def model_request(case, pinned=False, m="c06"):
                   "table"):
             if k in c:
                 d[k] = c[k]
+        if c.get("crash_before"):
+            d["crash"] = 100 + c["crash_before"]          # Cache.killBase + j
         cmds.append(d)
     return {"m": m, "nst": NSTACKS, "dirs": dirs, "tfiles": TFILES, "pinned": pinned, "cmds": cmds}
 
